@@ -2324,3 +2324,11 @@ package sarama
 //@   callsite send.input#1: requires[stamped_iff_first_pass_of_an_idempotent_producer] pp.parent.conf.Producer.Idempotent && msg.retries == 0 && msg.flags == 0 ==> msg.hasSequence
 //@   loop 0: invariant pp.parent == old(pp.parent) && pp.parent.conf == old(pp.parent.conf) && pp.parent.txnmgr == old(pp.parent.txnmgr) && pp.parent.txnmgr.sequenceNumbers != nil
 //@   nosafety
+
+// Config.Validate (C05, C16): a configuration that validates satisfies the idempotent producer's preconditions, and
+// zstd only with a Kafka version that has it.
+//@ func (c *Config) Validate() props C05
+//@   returns err
+//@   ensures[idempotence_preconditions] err == nil && c.Producer.Idempotent ==> verAtLeast(c.Version, V0_11_0_0) && c.Producer.Retry.Max != 0 && c.Producer.RequiredAcks == WaitForAll && c.Net.MaxOpenRequests <= 1
+//@   ensures[zstd_needs_2_1] err == nil && c.Producer.Compression == CompressionZSTD ==> verAtLeast(c.Version, V2_1_0_0)
+//@   nosafety
